@@ -32,14 +32,17 @@ Theorem xml_escape_roundtrip : forall s, decode (xml_escape s) = Some s.
 Proof. exact escape_roundtrip. Qed.
 Print Assumptions xml_escape_roundtrip.
 
-(* 5. A hexadecimal character reference with any number of digits (value below 2^32)
-      decodes to the UTF-8 encoding of its value when that is a Unicode scalar value, and
-      is an error otherwise (surrogates, values above U+10FFFF). *)
+(* 5. A hexadecimal character reference with ANY number of digits decodes to the UTF-8 encoding of its value when
+      that is a Unicode scalar value, and is an error otherwise (surrogates, values above U+10FFFF however large,
+      no digits at all). *)
 Theorem xml_charref_hex : forall hs,
-  hs <> [] -> Forall (fun c => hexv c <> None) hs -> hexval hs < 4294967296 ->
-  char_ref (35 :: 120 :: hs) = encode_utf8 (hexval hs).
+  hs <> [] -> Forall (fun c => hexv c <> None) hs ->
+  char_ref (35 :: 120 :: hs) = if hexval hs <=? MAXCP then encode_utf8 (hexval hs) else None.
 Proof. exact charref_hex. Qed.
 Print Assumptions xml_charref_hex.
+Theorem xml_charref_needs_digits : char_ref [35; 120] = None /\ char_ref [35] = None.
+Proof. exact charref_no_digits. Qed.
+Print Assumptions xml_charref_needs_digits.
 Theorem xml_encode_utf8_scalar : forall cp,
   (scalar cp -> encode_utf8 cp = Some (utf8 cp)) /\ (~ scalar cp -> encode_utf8 cp = None).
 Proof. exact encode_utf8_scalar. Qed.
@@ -55,14 +58,15 @@ Theorem xml_undefined_entity_not_expanded : forall pre ent rest,
 Proof. exact undefined_entity_not_expanded. Qed.
 Print Assumptions xml_undefined_entity_not_expanded.
 
-(* 7. Observations recorded as known findings (the model reproduces the code):
-      a character reference whose value exceeds 2^32 wraps around, and "&#x;" decodes to
-      NUL; leading white space of a text node is not reported. *)
-Theorem xml_charref_wraps_refuted :
-  decode [38; 35; 52; 50; 57; 52; 57; 54; 55; 51; 54; 49; 59] = Some [65] /\    (* &#4294967361; -> "A" *)
-  decode [38; 35; 120; 59] = Some [0].                                          (* &#x; -> NUL *)
+(* 7. Since the repair of F2 a character reference beyond 2^32 no longer wraps around and "&#x;" is rejected
+      (both were accepted by the code as found: "&#4294967361;" decoded to "A", "&#x;" to NUL).  Still recorded as a
+      known finding: leading white space of a text node is not reported. *)
+Theorem xml_charref_no_wrap :
+  decode [38; 35; 52; 50; 57; 52; 57; 54; 55; 51; 54; 49; 59] = None /\          (* &#4294967361; *)
+  decode [38; 35; 120; 59] = None /\                                              (* &#x; *)
+  decode [38; 35; 54; 53; 59] = Some [65].                                        (* &#65; -> "A" *)
 Proof. vm_compute. auto. Qed.
-Print Assumptions xml_charref_wraps_refuted.
+Print Assumptions xml_charref_no_wrap.
 
 (* ------------------------------------------------ non-vacuity examples *)
 Example accepted_instance :
